@@ -19,13 +19,20 @@ const straceSyscalls = "openat,creat,write,pwrite64,fsync,fdatasync,close,rename
 // straceEnv: working directory and $TMPDIR of the next driver process ("" = inherit). Set by the bare-name engine.
 var straceCwd, straceTmpDir string
 
+// straceInject: syscall fault injection for the next driver process (strace -e inject=...), "" = none.
+var straceInject string
+
 func runUnderStrace(specPath, logPath string) error {
 	exe, err := os.Executable()
 	if err != nil {
 		return err
 	}
-	cmd := exec.Command("strace", "-f", "-xx", "-s", "16000000", "-e", "trace="+straceSyscalls, "-o", logPath,
-		exe, "-test.run", "^TestC11Driver$", "-test.count=1")
+	args := []string{"-f", "-xx", "-s", "16000000", "-e", "trace=" + straceSyscalls, "-o", logPath}
+	if straceInject != "" {
+		args = append(args, "-e", "inject="+straceInject)
+	}
+	args = append(args, exe, "-test.run", "^TestC11Driver$", "-test.count=1")
+	cmd := exec.Command("strace", args...)
 	cmd.Env = append(os.Environ(), "C11_DRIVER_SPEC="+specPath)
 	if straceCwd != "" {
 		cmd.Dir = straceCwd
